@@ -94,6 +94,15 @@ class C12(TalCheck):
                 plans.append(([{"site": k, "n": 0, "do": ["ret", {
                     "v": ch.pick(["baditer", "badseq"]), "n": ch.choose(3),
                     "cls": ch.pick(UNCAUGHT_NAMES)}]}], None))
+        # the very same exception object raised again by a later render
+        # (a module-level sentinel, a memoised failure, a Future's result)
+        sites = sorted(counts)
+        if len(sites) >= 2 and ch.coin(0.5):
+            cls = ch.pick([c for c in UNCAUGHT_NAMES
+                           if c not in ("RecursionError", "E7")])
+            for k in ch.sample(sites, min(3, len(sites))):
+                plans.append(([{"site": k, "n": 0,
+                                "do": ["raise", cls, "shared"]}], None))
         # an earlier, recovered failure before a later, propagating one
         sites = sorted(counts)
         for _ in range(min(20, len(sites) * 2)):
